@@ -383,6 +383,12 @@ func c01Run(u *vfUnit) {
 					viol("readfrom-result", fmt.Sprintf("source %s: returned (%d, %v), want (%d, nil)", extra, n, err, deliver))
 				}
 				data = data[:deliver]
+				// the transfer continues where this one ended: a following Write must land right behind it
+				suffix := vfPattern(tag+13, int64(O+deliver), 1+ci%7)
+				if n2, err := f.Write(suffix); err != nil || n2 != len(suffix) {
+					viol("write-after-readfrom", fmt.Sprintf("Write after ReadFrom returned (%d, %v)", n2, err))
+				}
+				data = append(append([]byte(nil), data...), suffix...)
 			case "ReadAt":
 				buf := bytes.Repeat([]byte{0xEE}, L)
 				n, err := f.ReadAt(buf, int64(O))
